@@ -61,57 +61,81 @@ def _linearize(assertions, ctx):
     return [walk(a) for a in assertions]
 
 
+def _purify(assertions, ctx):
+    """Replace every array read select(a, i) by a fresh constant (congruence between different reads is dropped:
+    sound for `unsat`).  Returns None if quantifiers or uninterpreted functions remain (not pure arithmetic)."""
+    import z3
+    cache, fresh = {}, {}
+    ok = [True]
+
+    def walk(e):
+        k = e.get_id()
+        if k in cache:
+            return cache[k]
+        if z3.is_quantifier(e):
+            ok[0] = False
+            return e
+        if not z3.is_app(e) or e.num_args() == 0:
+            if z3.is_app(e) and z3.is_array(e):
+                ok[0] = False
+            cache[k] = e
+            return e
+        dk = e.decl().kind()
+        if dk == z3.Z3_OP_SELECT:
+            key = e.sexpr()
+            if key not in fresh:
+                fresh[key] = z3.Const("sel!%d" % len(fresh), e.sort())
+            r = fresh[key]
+        else:
+            if dk == z3.Z3_OP_UNINTERPRETED or dk in (z3.Z3_OP_STORE, z3.Z3_OP_CONST_ARRAY):
+                ok[0] = False
+            args = [walk(c) for c in e.children()]
+            try:
+                r = e.decl()(*args)
+            except Exception:
+                r = e
+        cache[k] = r
+        return r
+    out = [walk(a) for a in assertions]
+    _purify.last_selects = {str(v): k for k, v in fresh.items()}
+    return out if ok[0] else None
+
+
+_purify.last_selects = {}
+
+
 def _solve_one(task):
-    name, smt2, timeout_s, want_model = task
+    """Portfolio over (stage x hypothesis set): cheap stages first, each on the relevance-filtered hypotheses
+    (when they differ from the full set) and then on all hypotheses.  `sat` is only believed from the full set."""
+    name, smt2, timeout_s, want_model, smt2_rel = task
     import z3
     t0 = time.time()
     out = dict(name=name, verdict="unknown", backend=None, time=0.0, model=None, detail="")
-    stages = [("z3-linearized", {"linearize": True}, min(timeout_s, 3.0)),
+    stages = [("z3-linearized", {"linearize": True}, min(timeout_s, 1.0)),
+              ("z3-nlsat", {"nlsat": True}, min(timeout_s, 5.0)),
               ("z3", {}, min(timeout_s, 4.0)), ("z3-arith2", {"smt.arith.solver": 2}, min(timeout_s, 6.0))]
     if timeout_s > 4.0:
         stages.append(("z3", {}, timeout_s))
-    for label, opts, tmo in stages:
-        try:
-            ctx = z3.Context()
-            s = z3.Solver(ctx=ctx)
-            s.set("timeout", int(tmo * 1000))
-            lin = opts.pop("linearize", False) if isinstance(opts, dict) else False
-            for k, v in opts.items():
-                s.set(k, v)
-            s.from_string(smt2)
-            if lin:
-                if "(* " not in smt2 and "(/ " not in smt2:
-                    continue
-                s2 = z3.Solver(ctx=ctx)
-                s2.set("timeout", int(tmo * 1000))
-                for a in _linearize(s.assertions(), ctx):
-                    s2.add(a)
-                s = s2
-            r = s.check()
-            if lin and r != z3.unsat:
-                continue
-            out["backend"] = "%s-%s" % (label, z3.get_version_string())
-            if r == z3.unsat:
-                out["verdict"] = "unsat"
+    texts = ([("+relevant-hyps", smt2_rel)] if smt2_rel else []) + [("", smt2)]
+    done = False
+    for label, opts0, tmo in stages:
+        for suffix, text in texts:
+            full = suffix == ""
+            try:
+                r = _stage(z3, label, dict(opts0), tmo, text, want_model and full, out)
+            except Exception as e:
+                out["detail"] = "z3 error: %s" % e
+                r = None
+            if r == "unsat":
+                out["verdict"], out["backend"] = "unsat", "%s-%s%s" % (label, z3.get_version_string(), suffix)
+                done = True
                 break
-            elif r == z3.sat:
-                out["verdict"] = "sat"
-                if want_model:
-                    m = s.model()
-                    vals = {}
-                    for d in m.decls():
-                        n = d.name()
-                        if n.startswith("in_") or n.startswith("H0_") or n in ("alloc0",):
-                            try:
-                                vals[n] = _val(m, d)
-                            except Exception as e:  # pragma: no cover
-                                vals[n] = "?" + str(e)
-                    out["model"] = vals
+            if r == "sat" and full:
+                out["verdict"], out["backend"] = "sat", "%s-%s" % (label, z3.get_version_string())
+                done = True
                 break
-            else:
-                out["detail"] = s.reason_unknown()
-        except Exception as e:
-            out["detail"] = "z3 error: %s" % e
+        if done:
+            break
     if out["verdict"] == "unknown":
         for backend, cmd in (("cvc5-1.0", ["/usr/bin/cvc5", "--tlimit=%d" % int(timeout_s * 1000)]),
                              ("z3-4.8.12", ["/usr/bin/z3", "-T:%d" % max(1, int(timeout_s))])):
@@ -135,6 +159,72 @@ def _solve_one(task):
     return out
 
 
+def _stage(z3, label, opts, tmo, smt2, want_model, out):
+    ctx = z3.Context()
+    s = z3.Solver(ctx=ctx)
+    s.set("timeout", int(tmo * 1000))
+    lin = opts.pop("linearize", False)
+    if opts.pop("nlsat", False):
+        if "(* " not in smt2 and "(/ " not in smt2:
+            return None
+        s.from_string(smt2)
+        pure = _purify(s.assertions(), ctx)
+        if pure is None:
+            return None
+        tac = z3.Then(z3.Tactic("simplify", ctx), z3.Tactic("propagate-values", ctx), z3.Tactic("solve-eqs", ctx),
+                      z3.Tactic("elim-term-ite", ctx), z3.Tactic("qfnra-nlsat", ctx), ctx=ctx)
+        sol = tac.solver()
+        sol.set("timeout", int(tmo * 1000))
+        for a in pure:
+            sol.add(a)
+        rr = sol.check()
+        if rr == z3.unsat:
+            return "unsat"
+        if rr == z3.sat and want_model:
+            # model of the purified formula: only a *candidate* counter-model (array congruence was dropped);
+            # it is believed only if the real code fails on it (checks/run.py replays it)
+            try:
+                m = sol.model()
+                cand = {}
+                for d in m.decls():
+                    n = d.name()
+                    if n.startswith("in_") or n.startswith("sel!"):
+                        cand[n] = _val(m, d)
+                out["candidate_model"] = dict(values=cand, selects=_purify.last_selects)
+            except Exception:
+                pass
+        return None
+    for k, v in opts.items():
+        s.set(k, v)
+    s.from_string(smt2)
+    if lin:
+        if "(* " not in smt2 and "(/ " not in smt2:
+            return None
+        s2 = z3.Solver(ctx=ctx)
+        s2.set("timeout", int(tmo * 1000))
+        for a in _linearize(s.assertions(), ctx):
+            s2.add(a)
+        return "unsat" if s2.check() == z3.unsat else None
+    r = s.check()
+    if r == z3.unsat:
+        return "unsat"
+    if r == z3.sat:
+        if want_model:
+            m = s.model()
+            vals = {}
+            for d in m.decls():
+                n = d.name()
+                if n.startswith("in_") or n.startswith("H0_") or n in ("alloc0",):
+                    try:
+                        vals[n] = _val(m, d)
+                    except Exception as e:  # pragma: no cover
+                        vals[n] = "?" + str(e)
+            out["model"] = vals
+        return "sat"
+    out["detail"] = s.reason_unknown()
+    return None
+
+
 def _val(m, d):
     import z3
     v = m[d]
@@ -156,7 +246,7 @@ def _val(m, d):
         c = z3.Const(d.name(), d.range())
         out = {}
         try:
-            if c.sort().domain_n() == 1 and c.sort().domain() == z3.IntSort(c.ctx):
+            if c.sort().domain() == z3.IntSort(c.ctx):
                 for i in range(-1, 12):
                     e = m.eval(z3.Select(c, z3.IntVal(i, c.ctx)), model_completion=True)
                     out[str(i)] = _scalar(e)
@@ -173,6 +263,9 @@ def _scalar(e):
         return e.as_long()
     if z3.is_rational_value(e):
         return [e.numerator_as_long(), e.denominator_as_long()]
+    if z3.is_algebraic_value(e):
+        a = e.approx(12)
+        return [a.numerator_as_long(), a.denominator_as_long()]
     if z3.is_true(e):
         return True
     if z3.is_false(e):
@@ -181,8 +274,8 @@ def _scalar(e):
 
 
 def solve_all(obligations, timeout_s=20, procs=None, want_model=True):
-    tasks = [(o["name"], o["smt2"], min(timeout_s, 5) if o.get("kind") == "cover" else timeout_s, want_model)
-             for o in obligations]
+    tasks = [(o["name"], o["smt2"], min(timeout_s, 5) if o.get("kind") == "cover" else min(timeout_s, o.get("kind_timeout", timeout_s)), want_model,
+              o.get("smt2_rel")) for o in obligations]
     if not tasks:
         return []
     procs = procs or min(16, os.cpu_count() or 4, len(tasks))
